@@ -49,12 +49,12 @@ func c02RxRun(f []string) string {
 			ns = strings.Join(p, ",")
 		}
 		return "ok " + c02IntsStr(ix) + " " + ns
-	case "rxkey":
+	case "rxkey", "rxkeyp": // rxkeyp: the same under --posix (CompilePOSIX, leftmost-longest)
 		if len(f) != 4 {
 			return "bad-args"
 		}
 		pat, line, key := string(UnHex(f[1])), UnHex(f[2]), string(UnHex(f[3]))
-		re, err := fastregex.CompileEx(pat, false)
+		re, err := fastregex.CompileEx(pat, f[0] == "rxkeyp")
 		if err != nil {
 			return "error"
 		}
@@ -98,7 +98,29 @@ var c02rxPosixClasses = []string{`[a-c]`, `[^a]`, `[0-9a-f]`, `.`, `[ab]`, `[^ab
 var c02rxCounts = []string{"{2}", "{0}", "{1}", "{1,2}", "{0,2}", "{2,}", "{1,}", "{0,}", "{3,5}", "{2,3}", "{0,1}", "{3}", "{1,4}", "{10}", "{0,0}"}
 var c02rxClasses = []string{`[a-c]`, `[^a]`, `[0-9a-f]`, `\d`, `\w`, `\s`, `\S`, `\D`, `\W`, `.`, `[ab]`, `[^ab=]`, `[a\-c]`, `[\d_]`, `[a-]`, `[-a]`, `[A-Z]`, `[^A-Z0-9]`, `[\w/]`, `[b-b]`}
 
+// round 4c: hex / octal escapes, literal braces and brackets, POSIX classes, `]` first in a class (both modes) …
+var c02rxLits2 = []string{`\x41`, `\x62`, `\x{63}`, `\x{0061}`, `\141`, `\075`, `\055`, `}`, `]`, `{`, `{,2}`, `a{`, `{a}`, `\a`, `\v`, `\x2`, `\8`, `\1`, `\x{110000}`, `\_`, `\ `}
+var c02rxClasses2 = []string{`[[:alpha:]]`, `[[:^digit:]]`, `[[:upper:][:digit:]_]`, `[^[:space:]]`, `[[:word:]]`, `[]a]`, `[^]a]`, `[\x41-\x43]`, `[a\]]`, `[[]`, `[[a]`,
+	`[[:punct:]]`, `[[:xdigit:]]`, `[[:alnum:]-]`, `[[:blank:]]`, `[[:cntrl:]]`, `[[:graph:]]`, `[[:print:]]`, `[[:lower:]]`, `[[:ascii:]]`, `[[:nope:]]`, `[a-c-e]`, `[[:^alpha:][:^digit:]]`,
+	`[^[:^lower:]]`, `[\101-\103b]`, `[a-\x63]`, `[\n-\r]`}
+
+// … negated Perl classes inside brackets, flag groups, \Q…\E (Perl syntax only)
+var c02rxPerlClasses2 = []string{`[\D]`, `[\W_]`, `[^\S]`, `[\d\s]`, `[^\W\d]`, `[\Sa]`, `[\w-]`, `[\d-z]`}
+var c02rxFlags = []string{`(?i)`, `(?s)`, `(?m)`, `(?U)`, `(?-i)`, `(?i-s)`, `(?ims)`, `(?-)`, `(?i-)`, `(?)`, `(?-m)`, `(?sU)`, `(?i)(?-i)`, `(?x)`}
+var c02rxFlagGroups = []string{`(?i:`, `(?s:`, `(?U:`, `(?m-i:`, `(?-s:`, `(?is:`, `(?-U:`, `(?i-i:`}
+var c02rxQuotes = []string{`\Qa.b\E`, `\Q*\E`, `\Q\E`, `\Qab`, `\Q(a)\E`, `\Qa\b\E`, `\Q[\E+`, `\QAb\E`}
+
 func (g *c02rxGen) atom(depth int) string {
+	switch {
+	case g.r.Chance(1, 14):
+		return Pick(g.r, c02rxLits2)
+	case g.r.Chance(1, 12):
+		return Pick(g.r, c02rxClasses2)
+	case !g.posix && g.r.Chance(1, 25):
+		return Pick(g.r, c02rxPerlClasses2)
+	case !g.posix && g.r.Chance(1, 30):
+		return Pick(g.r, c02rxQuotes)
+	}
 	switch {
 	case depth < 3 && g.r.Chance(1, 4):
 		return g.group(depth)
@@ -120,6 +142,9 @@ func (g *c02rxGen) group(depth int) string {
 	switch sel {
 	case 0:
 		open = "(?:"
+		if g.r.Chance(1, 3) {
+			open = Pick(g.r, c02rxFlagGroups)
+		}
 	case 1, 2:
 		nm := Pick(g.r, []string{"a", "b", "n1", "_x", "path", "id", "A", "line", "src", "x2", "k", "v"})
 		if !g.names[nm] || g.r.Chance(1, 12) { // a repeated name is a compile error in Go: rarely
@@ -166,6 +191,9 @@ func (g *c02rxGen) cat(depth int) string {
 		}
 		if !g.posix && g.r.Chance(1, 12) {
 			sb.WriteString(Pick(g.r, []string{`\b`, `\b`, `\B`, `\A`, `\z`}))
+		}
+		if !g.posix && g.r.Chance(1, 14) {
+			sb.WriteString(Pick(g.r, c02rxFlags))
 		}
 		sb.WriteString(g.rep(depth))
 	}
@@ -345,13 +373,17 @@ func c02RxGen(r *Rand, tier string) []string {
 					ok = false
 				}
 			}
-			if ok && posix == "0" {
+			if ok {
 				keys := []string{"0", "1", "2", "3", "@", "nope", "9"}
 				for nm := range g.names {
 					keys = append(keys, nm)
 				}
 				sort.Strings(keys)
-				out = append(out, fmt.Sprintf("rxkey %s %s %s", HexS(pat), Hex(line), HexS(Pick(r, keys))))
+				op := "rxkey"
+				if posix == "1" {
+					op = "rxkeyp"
+				}
+				out = append(out, fmt.Sprintf("%s %s %s %s", op, HexS(pat), Hex(line), HexS(Pick(r, keys))))
 			}
 		}
 	}
@@ -366,7 +398,8 @@ func c02RxStats(cases []string, st map[string]int) {
 		}
 		pat := string(UnHex(f[2]))
 		for _, k := range []struct{ key, sub string }{{"rx.pat.group", "("}, {"rx.pat.named", "(?P<"}, {"rx.pat.alt", "|"}, {"rx.pat.star", "*"},
-			{"rx.pat.plus", "+"}, {"rx.pat.lazy", "*?"}, {"rx.pat.class", "["}, {"rx.pat.fold", "(?i)"}, {"rx.pat.anchor", "^"}, {"rx.pat.count", "{"}, {"rx.pat.wordb", `\b`}} {
+			{"rx.pat.plus", "+"}, {"rx.pat.lazy", "*?"}, {"rx.pat.class", "["}, {"rx.pat.fold", "(?i)"}, {"rx.pat.anchor", "^"}, {"rx.pat.count", "{"}, {"rx.pat.wordb", `\b`},
+			{"rx.pat.flaggroup", "(?i:"}, {"rx.pat.flag.s", "(?s"}, {"rx.pat.flag.m", "(?m"}, {"rx.pat.flag.U", "(?U"}, {"rx.pat.posixclass", "[:"}, {"rx.pat.hex", `\x`}, {"rx.pat.quote", `\Q`}} {
 			if strings.Contains(pat, k.sub) {
 				st[k.key]++
 			}
